@@ -193,8 +193,10 @@ func ruleShiftTables(c *Ctx, rule string) {
 		name string
 		n    int
 	}{{"uint24Encode", 3}, {"uint48Encode", 6}} {
-		fn := c.Fn("pkg/frame", h.name)
+		fn := c.FnOpt("pkg/frame", h.name)
 		if fn == nil {
+			// helper inlined / replaced: the positions are decided where the bytes are used (R1.1 writer layout)
+			r.OK(rule, h.name, "-", "helper not present: byte positions decided in line by R1.1")
 			continue
 		}
 		bi := newBufInterp(c, fn, nil, nil)
@@ -212,8 +214,10 @@ func ruleShiftTables(c *Ctx, rule string) {
 		name string
 		n    int
 	}{{"uint24Decode", 3}, {"uint48Decode", 6}} {
-		fn := c.Fn("pkg/frame", h.name)
+		fn := c.FnOpt("pkg/frame", h.name)
 		if fn == nil {
+			// helper inlined / replaced: the positions are decided where the bytes are used (R1.2 reader layout)
+			r.OK(rule, h.name, "-", "helper not present: byte positions decided in line by R1.2")
 			continue
 		}
 		rets := retInstrs(fn)
@@ -258,7 +262,7 @@ func ruleReaderLayout(c *Ctx, rule string) {
 		}
 		r.Functions[fnQual(fn)] = true
 		// consuming calls in order
-		peeks := callsNamed(fn, "frame.peekAndDiscard")
+		peeks := callsNamed(fn, "frame.peekAndDiscard", "(bufio.Reader).Peek")
 		rf := callsNamed(fn, "io.ReadFull")
 		sizes := []int64{}
 		for _, p := range peeks {
@@ -326,6 +330,7 @@ func ruleReaderLayout(c *Ctx, rule string) {
 			}())
 		// stores to recv fields and to the MessageRaw literal
 		got := map[string]string{}
+		gotVal := map[string]ssa.Value{}
 		for _, in := range allInstrs(fn) {
 			st, ok := in.(*ssa.Store)
 			if !ok {
@@ -338,7 +343,61 @@ func ruleReaderLayout(c *Ctx, rule string) {
 			b := ex(base)
 			if b == "recv" || strings.HasPrefix(b, "&lit:message.MessageRaw") {
 				got[f.Name()] = src(st.Val)
+				gotVal[f.Name()] = st.Val
 			}
+		}
+		// spec positions as byte→shift tables over the peeked blocks, for sources written in any other way (decode helper
+		// inlined, encoding/binary, manual shifts)
+		specTerms := map[string]struct {
+			blk string
+			tm  map[int]int
+		}{"Checksum": {"C", map[int]int{0: 0, 1: 8}}}
+		if sp.hdr == 9 {
+			specTerms["ID"] = struct {
+				blk string
+				tm  map[int]int
+			}{"H", map[int]int{6: 0, 7: 8, 8: 16}}
+			specTerms["SignatureTimestamp"] = struct {
+				blk string
+				tm  map[int]int
+			}{"S", map[int]int{1: 0, 2: 8, 3: 16, 4: 24, 5: 32, 6: 40}}
+		} else {
+			specTerms["ID"] = struct {
+				blk string
+				tm  map[int]int
+			}{"H", map[int]int{4: 0}}
+		}
+		termsMatch := func(f string) (bool, string) {
+			stv, has := specTerms[f]
+			v := gotVal[f]
+			if !has || v == nil {
+				return false, ""
+			}
+			if p, isPhi := v.(*ssa.Phi); isPhi {
+				if tv := threadedValue(p); tv != nil {
+					v = tv
+				}
+			}
+			var blk ssa.Value
+			for val, n := range names {
+				if n == stv.blk {
+					blk = val
+				}
+			}
+			tm, ok := orTerms(v, func(x ssa.Value) bool { return x == blk })
+			if !ok {
+				return false, ""
+			}
+			same := len(tm) == len(stv.tm)
+			for i, sh := range stv.tm {
+				if tm[i] != sh {
+					same = false
+				}
+				if _, has := tm[i]; !has {
+					same = false
+				}
+			}
+			return same, fmt.Sprintf("%s bytes→shifts %v", stv.blk, tm)
 		}
 		for _, call := range callsNamed(fn, "copy") {
 			a := call.Common().Args
@@ -363,8 +422,11 @@ func ruleReaderLayout(c *Ctx, rule string) {
 			switch {
 			case !has:
 				r.Fail(rule, sp.fn+" "+f, c.Pos(fn.Pos()), "frame field "+f+" is never filled from the wire (spec source "+want+")")
-			case g == want:
+			case g == want, f == "Signature" && g == "copy S[7:13]":
 				r.OK(rule, sp.fn+" "+f, c.Pos(fn.Pos()), f+" ← "+g)
+			case func() bool { ok, _ := termsMatch(f); return ok }():
+				_, d := termsMatch(f)
+				r.OK(rule, sp.fn+" "+f, c.Pos(fn.Pos()), f+" ← "+d+" (spec position, little-endian)")
 			case looksLikeWireSource(g):
 				r.Fail(rule, sp.fn+" "+f, c.Pos(fn.Pos()), "frame field "+f+" is read from "+g+", the spec position is "+want)
 			default:
